@@ -16,10 +16,17 @@ LEVEL = "proof"
 MODULE = "Sqfs.Props.C10"
 REQUIRED = ["Sqfs.C10.coherent_init", "Sqfs.C10.coherent_seek", "Sqfs.C10.coherent_read", "Sqfs.C10.coherent_run",
             "Sqfs.C10.meta_history_independent", "Sqfs.C10.meta_answer_depends_on_image_and_query_only",
-            "Sqfs.C10.read_no_crash", "Sqfs.C10.failed_miss_unpositions", "Sqfs.C10.toyUnc_ok",
-            "Sqfs.C10.seek_then_position",
+            "Sqfs.C10.read_no_crash", "Sqfs.C10.failed_miss_unpositions", "Sqfs.C10.seek_then_position",
             "Sqfs.C10.data_coherent_init", "Sqfs.C10.data_coherent_read", "Sqfs.C10.data_coherent_run",
-            "Sqfs.C10.data_api_eq_cacheless", "Sqfs.C10.data_history_independent", "Sqfs.C10.stream_fail_stops"]
+            "Sqfs.C10.data_api_eq_cacheless", "Sqfs.C10.data_history_independent",
+            "Sqfs.C10.data_history_independent_written", "Sqfs.C10.stream_fail_stops",
+            "Sqfs.C10.read_eq_blocks_plus_fragment", "Sqfs.C10.stream_eq_read", "Sqfs.C10.written_file_content",
+            "Sqfs.C10.prog_history_independent", "Sqfs.C10.session_history_independent",
+            "Sqfs.C10.inode_by_ref_history_independent", "Sqfs.C10.readdir_call_history_independent",
+            "Sqfs.C10.dir_listing_history_independent", "Sqfs.C10.dir_list_history_independent",
+            "Sqfs.C10.path_resolution_history_independent", "Sqfs.C10.xattr_desc_history_independent",
+            "Sqfs.C10.xattr_set_history_independent", "Sqfs.C10.xattr_walk_history_independent",
+            "Sqfs.C10.ool_position_restored", "Sqfs.C10.toyUnc_ok"]
 
 KEY_D2 = "C10:D2:meta-seek-failed-load-keeps-old-tag"
 KEY_D3 = "C10:D3:meta-read-after-failed-seek-underflow"
